@@ -57,6 +57,28 @@ def handle_history(rng, rs, cache, nops, size0):
     return {"config": {"rs": rs, "cache": cache}, "blobs": blobs, "obs": [], "calls": calls}
 
 
+def directed_handle_histories():
+    """Systematic short sequences: advance the cursor (read / forward seek), then seek to every kind of target
+    (backward to a non-zero offset, to 0, forward, relative, from the end, to the end), then read and report the
+    position; on read-write handles finish with a write so that a wrong cursor shows in the content."""
+    hs = []
+    size0 = 600
+    k = 0
+    for fl in (hist.O_RDONLY, hist.O_RDWR):
+        for first in ({"op": "read", "n": 3}, {"op": "read", "n": 100}, {"op": "seek", "whence": 0, "off": 100}, {"op": "seek", "whence": 0, "off": 512}, {"op": "read", "n": 600}):
+            for (w, o) in ((0, 0), (0, 1), (0, 50), (0, 99), (0, 100), (0, 300), (0, 599), (0, 600), (1, -1), (1, -50), (1, 5), (1, 0), (2, -1), (2, -100), (2, -600), (2, 0)):
+                calls = [{"op": "initialize"}, {"op": "createfile", "name": "/f", "blob": 0}, {"op": "open", "h": "a", "name": "/f", "flags": fl, "perm": 0o644},
+                         dict(first, h="a"), {"op": "seek", "h": "a", "whence": w, "off": o}, {"op": "read", "h": "a", "n": 6}, {"op": "seek", "h": "a", "whence": 1, "off": 0}]
+                blobs = [{"seed": 1, "len": size0}]
+                if fl == hist.O_RDWR:
+                    calls += [{"op": "seek", "h": "a", "whence": 0, "off": 7}, {"op": "write", "h": "a", "data": base64.b64encode(pat(2, 0, 4)).decode()}]
+                    blobs.append({"seed": 2, "len": 4})
+                calls += [{"op": "close", "h": "a"}, {"op": "readfile", "name": "/f"}, {"op": "stat", "name": "/f"}]
+                hs.append({"config": {"rs": [1, 3, 20][k % 3], "cache": "file"}, "blobs": blobs, "obs": [], "calls": calls, "_directed": True})
+                k += 1
+    return hs
+
+
 def run_ref(h):
     pr = subprocess.run([hist.STFSDRV, "ref"], input=json.dumps(h), stdout=subprocess.PIPE, stderr=subprocess.PIPE, text=True,
                         timeout=120, env=dict(ENV, VERIF_SCRATCH=hist.scratch_dir()))
@@ -72,7 +94,7 @@ def handle_stream(ctx):
         raise RuntimeError(out[-1500:])
     quick = ctx.tier == "quick"
     rng = random.Random(ctx.seed * 53 + 11)
-    hs = [dict(h) for h in streams.corpus("handles")]
+    hs = [dict(h) for h in streams.corpus("handles")] + directed_handle_histories()
     for i in range(120 if quick else 1500):
         hs.append(handle_history(random.Random(rng.random()), rng.choice([1, 3, 20]), rng.choice(["file", "file", "memory"]),
                                  rng.randint(2, 10 if quick else 28), rng.choice([0, 10, 600, 1500])))
